@@ -294,6 +294,9 @@ MODS = {
     'sysexit': 'raise SystemExit(1)\n',
     'pathins': 'import sys\nsys.path.insert(0, "/nonexistent_zz")\nX = 2\n',
     'pathappend': 'import sys\nsys.path.append("/nonexistent_yy")\nX = 3\n',
+    # the module removes the *first* entry of sys.path (not the library's temporary one, which sits at the end for index=-1):
+    # sys.path is then shorter than the position the library remembers
+    'pathpop': 'import sys\nsys.path.pop(0)\nX = 4\n',
 }
 
 
@@ -318,6 +321,8 @@ class ImportSpec(Spec):
                         # there): documented as a heuristic only when the module edits sys.path as well
                         if pre != 'absent' and k not in ('good', 'raises', 'importerror', 'syntax', 'sysexit'):
                             continue
+                        if k == 'pathpop' and index != -1:
+                            continue        # with index=0 the module would remove the library's own entry
                         yield (k, where, index, pre)
 
     def hist_cost(self, hist):
@@ -359,7 +364,7 @@ class ImportSpec(Spec):
                     if type(ex).__name__ == 'CaseTimeout':
                         raise
                     how = 'raised:' + type(ex).__name__
-                    if kind in ('good', 'pathins', 'pathappend'):
+                    if kind in ('good', 'pathins', 'pathappend', 'pathpop'):
                         atoms.append({'sig': 'import:good-module-fails', 'msg': repr(ex)})
                 after = snap()
                 exp = dict(before)
@@ -369,6 +374,8 @@ class ImportSpec(Spec):
                     exp['sys.path'] = ['/nonexistent_zz'] + before['sys.path']
                 if kind.startswith('pathapp'):
                     exp['sys.path'] = before['sys.path'] + ['/nonexistent_yy']
+                if kind == 'pathpop':
+                    exp['sys.path'] = before['sys.path'][1:]
                 for k in diff(exp, after):
                     atoms.append({'sig': 'leak:%s:after-import-%s' % (k, 'ok' if how == 'ok' else 'failure'),
                                   'msg': 'import of a %s module (%s, index=%d, search dir already on sys.path: %s) %s; %s: %r -> %r' % (
